@@ -18,4 +18,5 @@ def run(ctx):
     atomics.O2(ctx)
     atomics.O3(ctx)
     atomics.M5(ctx)
+    atomics.M5b(ctx)
     atomics.M6(ctx)
